@@ -56,15 +56,17 @@ def get_level(level):
 
 
 def configure_logging(level_name):
-    fmt = LOGGING_FORMATS[level_name]
-
     handler = logging.StreamHandler()
-    handler.setFormatter(ColorFormatter(fmt=fmt))
 
     root = logging.getLogger()
     root.addHandler(handler)
+    set_verbosity(root, handler, level_name)
+    return root, handler
+
+
+def set_verbosity(root, handler, level_name):
+    handler.setFormatter(ColorFormatter(fmt=LOGGING_FORMATS[level_name]))
     root.setLevel(get_level(level_name))
-    return root
 
 
 def init(project_dir):
@@ -125,7 +127,7 @@ def init(project_dir):
     "-v",
     "--verbose",
     type=click.Choice(["warning", "debug", "info", "error"]),
-    default="info",
+    default=None,
     help="Verbosity level.",
 )
 @click.option(
@@ -141,7 +143,7 @@ def main(ctx, file, backend, verbose, no_color):
 
     Shows help for the status command.
     """
-    configure_logging(level_name=verbose)
+    root, handler = configure_logging(level_name=verbose or "info")
 
     try:
         path, obj_name = find_workflow(file)
@@ -160,6 +162,15 @@ def main(ctx, file, backend, verbose, no_color):
     working_dir.joinpath(".gwf", "logs").mkdir(exist_ok=True)
 
     config = FileConfig.load(working_dir.joinpath(".gwfconf.json"))
+
+    # If the --verbose argument is not set, use the verbosity from the
+    # configuration file (which defaults to "info").
+    if verbose is None:
+        verbose = config.get("verbose")
+        if verbose in LOGGING_FORMATS:
+            set_verbosity(root, handler, verbose)
+        else:
+            logger.warning("Ignoring invalid verbosity '%s' in configuration", verbose)
 
     # If the --use-color/--no-color argument is not set, get a value from the
     # configuration file. If nothing has been configured, check if the NO_COLOR
